@@ -146,6 +146,19 @@ ExtractKV(s) == LET e == RunAC(s, 1) IN
                 IF e >= 1 /\ e + 1 <= Len(s) /\ s[e + 1] = 61
                   THEN <<TRUE, SubSeq(s, 1, e), SubSeq(s, e + 2, RunAC(s, e + 2))>> ELSE <<FALSE, <<>>, <<>>>>
 
+\* ^(?P<f4>[a-c]+)(?:=(?P<f5>[a-c]+))? : <<matched, f4, f5 takes part, f5>>  -- a group that takes no part in the match leaves its field alone
+ExtractOpt(s) == LET e == RunAC(s, 1) IN
+                 IF e < 1 THEN <<FALSE, <<>>, FALSE, <<>>>>
+                 ELSE IF e + 1 <= Len(s) /\ s[e + 1] = 61 /\ RunAC(s, e + 2) >= e + 2
+                        THEN <<TRUE, SubSeq(s, 1, e), TRUE, SubSeq(s, e + 2, RunAC(s, e + 2))>>
+                        ELSE <<TRUE, SubSeq(s, 1, e), FALSE, <<>>>>
+RECURSIVE RunOf(_, _, _)
+RunOf(s, i, c) == IF i <= Len(s) /\ s[i] = c THEN RunOf(s, i + 1, c) ELSE i - 1
+\* ^(?:(?P<f4>a+)|(?P<f5>b+)) : <<matched, which group took part (4 or 5), its text>>
+ExtractAlt(s) == IF s # <<>> /\ s[1] = 97 THEN <<TRUE, 4, SubSeq(s, 1, RunOf(s, 1, 97))>>
+                 ELSE IF s # <<>> /\ s[1] = 98 THEN <<TRUE, 5, SubSeq(s, 1, RunOf(s, 1, 98))>>
+                 ELSE <<FALSE, 0, <<>>>>
+
 RECURSIVE Run(_, _, _), Apply(_, _), FirstCase(_, _, _)
 Run(ts, k, st) == IF k > Len(ts) \/ st.res = "DROP" THEN st ELSE Run(ts, k + 1, Apply(ts[k], st))
 FirstCase(cases, k, st) == IF k > Len(cases) THEN st
@@ -180,8 +193,15 @@ Apply(t, st) ==
     [] t.t = "unescape" ->
          IF st.un THEN st ELSE [st EXCEPT !.un = TRUE, !.f[t.key] = Unesc(f[t.key], 1)]
     [] t.t = "replace" -> IF f[t.key] = <<>> THEN st ELSE [st EXCEPT !.f[t.key] = ReplaceBy(t.pat, f[t.key])]
-    [] t.t = "extract" -> LET r == ExtractKV(f[t.key]) IN      \* (t.pat = "kv": captures f4 = field 4, f5 = field 5)
+    [] t.t = "extract" /\ t.pat = "kv" ->
+                          LET r == ExtractKV(f[t.key]) IN      \* captures f4 = field 4, f5 = field 5
                           IF r[1] THEN [st EXCEPT !.f[4] = r[2], !.f[5] = r[3]] ELSE st
+    [] t.t = "extract" /\ t.pat = "opt" ->
+                          LET r == ExtractOpt(f[t.key]) IN
+                          IF ~r[1] THEN st ELSE IF r[3] THEN [st EXCEPT !.f[4] = r[2], !.f[5] = r[4]] ELSE [st EXCEPT !.f[4] = r[2]]
+    [] t.t = "extract" /\ t.pat = "alt" ->
+                          LET r == ExtractAlt(f[t.key]) IN
+                          IF ~r[1] THEN st ELSE [st EXCEPT !.f[r[2]] = r[3]]
 
 \* sampled dropping tracks the configured percentage to within one record at every prefix of the matched stream
 SamplingOk(prog, ds) ==
